@@ -99,14 +99,31 @@ func overlapSpec(t *rapid.T) *hist.Spec {
 	return sp
 }
 
+// guessSpec: additional properties of a declared JSON kind against literals in every spelling
+// (the kind of a literal is guessed by trying a set of predicates kept in a map).
+func guessSpec(t *rapid.T) *hist.Spec {
+	kind := rapid.SampledFrom([]string{"integer", "float", "string", "boolean", "null", "any", "array", "object"}).Draw(t, "apKind")
+	sp := &hist.Spec{Kind: "schema"}
+	sp.Schema = lib.Spec{Schema: "{ // {additionalProperties: \"" + kind + "\"}\n  \"a\": 1\n}"}
+	toks := []string{"1", "-0", "0", "1e2", "1.5e1", "12E0", "-3e+1", "1e-2", "1.0", "1.50", "100e-2", "2.5", "1E400", "true", "false", "null", `"s"`, `"1"`, `""`, "[]", "{}", "[1]", `{"k":1}`}
+	n := rapid.IntRange(3, 8).Draw(t, "ndocs")
+	for i := 0; i < n; i++ {
+		sp.Docs = append(sp.Docs, `{"a":1,"x":`+rapid.SampledFrom(toks).Draw(t, "tok")+`}`)
+	}
+	return sp
+}
+
 func TestMapOrders(t *testing.T) {
 	run.SkipIfReplaying(t)
 	defer run.Done(t, chk)
 	rapid.Check(t, func(t *rapid.T) {
 		var sp *hist.Spec
-		if rapid.IntRange(0, 3).Draw(t, "overlap") == 0 {
+		if k := rapid.IntRange(0, 7).Draw(t, "overlap"); k <= 1 {
 			sp = overlapSpec(t)
 			run.Label("family:overlap-biased")
+		} else if k == 2 {
+			sp = guessSpec(t)
+			run.Label("family:literal-kind-guessing")
 		} else {
 			sp = hist.DrawSchemaSpec(t, "s", rapid.IntRange(0, 2).Draw(t, "family"))
 			run.Label("family:generated")
